@@ -11,6 +11,9 @@ import tempfile
 import coincurve
 
 from nostr_relay.config import Config
+# NostrQuery's default limit is Config.max_limit AT THE TIME storage/base.py IS FIRST IMPORTED: import it now, with the pristine
+# configuration, so that a filter without a limit means the same in every suite whatever ran first in this process
+import nostr_relay.storage.base  # noqa: E402,F401
 
 TEST_CONFIG = os.path.join(os.environ.get("VERIF_REPO", "/repo"), "test", "test_config.yaml")
 
